@@ -135,7 +135,8 @@ def limited_build(build, cpu_s):
     w = os.path.join(build.top, "aldor-cpu%d.sh" % cpu_s)
     if not os.path.exists(w):
         with open(w, "w") as f:
-            f.write("#!/bin/sh\nulimit -S -t %d\nexec %s \"$@\"\n" % (cpu_s, shlex.quote(build.aldor)))
+            # (-v 16 GB: far above what a compiler reaches inside the CPU limit; a guard against the out-of-memory killer)
+            f.write("#!/bin/sh\nulimit -S -t %d\nulimit -S -v 16777216\nexec %s \"$@\"\n" % (cpu_s, shlex.quote(build.aldor)))
         os.chmod(w, os.stat(w).st_mode | stat.S_IXUSR | stat.S_IXGRP | stat.S_IXOTH)
     lb = copy.copy(build)
     lb.aldor = w
